@@ -20,6 +20,9 @@ func scenarios(quick bool) []sigh.Scen {
 		{"slow-listen-outlives-tracker", [][]string{{"listens:l1:A", "wait", "attach:b1:B:A", "wait", "cancel:b1", "wait", "listen:l2:A", "wait", "cancel:l2", "wait", "listen:l3:A", "wait", "resume:l1", "wait", "attach:b2:B:A"}}},
 		{"slow-session-outlives-tracker", [][]string{{"attachs:a1:A:B", "wait", "attach:a2:A:B", "wait", "cancel:a2", "wait", "attach:a3:A:B", "wait", "resume:a1", "wait", "attach:b1:B:A"}}},
 		{"replace-racing-with-cancel", [][]string{{"!setup", "attach:a1:A:B", "attach:b1:B:A", "listen:l1:B", "wait"}, {"attach:a2:A:B", "cancel:a2"}, {"cancel:b1", "listen:l2:B"}}},
+		// a replaced call that is blocked in Send (slow client) leaves through its cancelled context / failing Send, without ever noticing that it was replaced
+		{"replaced-stalled-session-exits-by-cancel", [][]string{{"attach:b1:B:A", "attachs:a1:A:B", "wait", "attach:a2:A:B", "wait", "cancel:a1", "wait", "send:a2:m1"}}},
+		{"replaced-stalled-listen-exits-by-cancel", [][]string{{"attach:a1:A:C", "listens:l1:C", "wait", "listen:l2:C", "wait", "cancel:l1", "wait", "attach:b1:B:C"}}},
 		{"listen-cancel-race", [][]string{{"listen:l1:C", "cancel:l1"}, {"attach:a1:A:C", "cancel:a1"}}},
 	}
 	if !quick {
